@@ -11,6 +11,7 @@ import (
 	"path/filepath"
 	"regexp"
 	"sort"
+	"strings"
 	"testing"
 
 	"github.com/ethereum/go-ethereum/core/rawdb"
@@ -429,7 +430,7 @@ func runFzOnce(t *testing.T, p *FzPlan) *simcore.Result {
 			}
 			img := model.CrashImage(mode, simcore.NewRand(simcore.RunSeed(p.CutSeed, uint64(c*16+d))), stats)
 			res.Reboots++
-			if os.Getenv("VERIF_TRACE") != "" {
+			if os.Getenv("VERIF_TRACE") == "events" {
 				for i := 0; i < c; i++ {
 					fmt.Printf("ev %d %s\n", i, evString(rec.Events, i, root))
 				}
@@ -471,10 +472,52 @@ func evString(evs []simos.Event, i int, root string) string {
 	return fmt.Sprintf("%s %s off=%d len=%d %s", e.Kind, e.Path[len(root):], e.Off, len(e.Data), e.To)
 }
 
+// eventsHash is the determinism fingerprint of a run: per file, the sequence of its
+// own events; files combined in path order. (The global interleaving of different
+// tables' events follows Go's random map iteration inside the freezer and is not
+// part of the fingerprint.)
 func eventsHash(evs []simos.Event, root string) uint64 {
-	h := simcore.NewHash()
+	per := map[string]simcore.Hash64{}
 	for _, e := range evs {
-		h = h.U64(uint64(e.Kind)).String(e.Path[len(root):]).U64(uint64(e.Off)).Bytes(e.Data)
+		p := e.Path[len(root):]
+		h, ok := per[p]
+		if !ok {
+			h = simcore.NewHash()
+		}
+		if e.Kind == simos.EvRename && strings.Contains(p, "simos-tmp-") {
+			// a temp file's life (create, writes, sync) is folded into its rename target:
+			// which table uses the shared temp name first follows Go's map order
+			to := strings.TrimPrefix(e.To, root)
+			th, ok := per[to]
+			if !ok {
+				th = simcore.NewHash()
+			}
+			per[to] = th.String("renamed-from-temp").U64(uint64(h))
+			delete(per, p)
+			continue
+		}
+		if e.Kind == simos.EvRemove && strings.Contains(p, "simos-tmp-") {
+			delete(per, p)
+			continue
+		}
+		per[p] = h.U64(uint64(e.Kind)).U64(uint64(e.Off)).Bytes(e.Data).String(strings.TrimPrefix(e.To, root))
+	}
+	paths := make([]string, 0, len(per))
+	for p := range per {
+		paths = append(paths, p)
+	}
+	sort.Strings(paths)
+	h := simcore.NewHash()
+	for _, p := range paths {
+		h = h.String(p).U64(uint64(per[p]))
+		if os.Getenv("VERIF_TRACE") == "hash" {
+			fmt.Printf("FILEHASH %s %x\n", p, uint64(per[p]))
+		}
+	}
+	if os.Getenv("VERIF_TRACE") == "hash" {
+		for i := range evs {
+			fmt.Printf("EV %s\n", evString(evs, i, root))
+		}
 	}
 	return uint64(h)
 }
